@@ -27,6 +27,7 @@ const (
 	OrderSorted  OrderMode = iota // canonical sorted order, no choice point
 	OrderFree                     // every permutation
 	OrderDeviate                  // identity first, other picks cost a deviation
+	OrderRev                      // identity or reversed order at every site (covers both relative orders of any two fields)
 )
 
 // Pools lists zog's pools by name (addresses are stable across ClearPools).
@@ -122,6 +123,17 @@ func Install(x *mc.X, pm PoolMode, om OrderMode) {
 		zverif.OrderHook = func(site string, n int) []int { return x.Perm(n, "order."+site) }
 	case OrderDeviate:
 		zverif.OrderHook = func(site string, n int) []int { return x.DevPerm(n, "order."+site) }
+	case OrderRev:
+		zverif.OrderHook = func(site string, n int) []int {
+			if x.Choose(2, "orderrev."+site) == 0 {
+				return nil
+			}
+			p := make([]int, n)
+			for i := range p {
+				p[i] = n - 1 - i
+			}
+			return p
+		}
 	}
 }
 
